@@ -3,6 +3,10 @@ package main
 import (
 	"bytes"
 	"context"
+	"crypto/tls"
+	"io"
+	"net/http"
+	"net/http/httptest"
 	"crypto/sha256"
 	"encoding/hex"
 	"encoding/json"
@@ -73,6 +77,7 @@ type c40In struct {
 	Kind     string   `json:"kind"`
 	Hook     bool     `json:"hook,omitempty"`
 	Binds    [][2]int `json:"binds,omitempty"`    // per thread: kind id, caps id
+	Reqs     []*c40Req `json:"reqs,omitempty"`    // per thread: nil = a direct notifyTransport call, else a real HTTP request through HttpServer.ServeHTTP (its binding is http/nil whatever its attributes)
 	Outcomes []bool   `json:"outcomes,omitempty"` // per hook run number: nil?
 	Evs      []c40Ev  `json:"evs,omitempty"`
 	Cands    []uint64 `json:"cands,omitempty"`
@@ -436,14 +441,7 @@ func c40RenderEvs(evs []c40REv, goC, relC, peekC string) string {
 
 // ------------------------------------------------------------------ notify
 
-var c40KindNames = func() []string {
-	for _, c := range vgirpc.VerifConstants() {
-		if c.Name == "c40_kinds" {
-			return c.List
-		}
-	}
-	panic("c40_kinds missing")
-}()
+var c40KindNames = c40KindTable
 
 func c40KindStr(id int) vgirpc.TransportKind {
 	if id >= 0 && id < len(c40KindNames) {
@@ -452,19 +450,7 @@ func c40KindStr(id int) vgirpc.TransportKind {
 	return vgirpc.TransportKind(fmt.Sprintf("custom-%d", id))
 }
 
-func c40KindID(k vgirpc.TransportKind) int {
-	for i, n := range c40KindNames {
-		if n == string(k) {
-			return i
-		}
-	}
-	if s, ok := strings.CutPrefix(string(k), "custom-"); ok {
-		if v, err := strconv.Atoi(s); err == nil {
-			return v
-		}
-	}
-	return 9999
-}
+func c40KindID(k vgirpc.TransportKind) int { return c40KindIDOf(k) }
 
 func c40CapsMap(id int) map[string]bool {
 	switch id {
@@ -482,22 +468,7 @@ func c40CapsMap(id int) map[string]bool {
 	return m
 }
 
-func c40CapsID(m map[string]bool) int {
-	switch {
-	case len(m) == 0:
-		return 0
-	case len(m) == 1 && m["shm"]:
-		return 1
-	case len(m) == 2 && m["shm"] && m["x"]:
-		return 2
-	}
-	for i := 0; i < len(m); i++ {
-		if !m[fmt.Sprintf("c%d", i)] {
-			return 9999
-		}
-	}
-	return len(m)
-}
+func c40CapsID(m map[string]bool) int { return c40CapsIDOf(m) }
 
 func c40Bind(b [2]int) string { return Pair(N(uint64(b[0])), N(uint64(b[1]))) }
 
@@ -514,8 +485,91 @@ type c40Res struct {
 	Read  [2]int `json:"read"`
 }
 
+// c40Req: the request-level attributes of one HTTP request.  None of them may
+// influence the transport binding: the server is bound to (http, nil) once.
+type c40Req struct {
+	TLS    bool   `json:"tls,omitempty"`    // r.TLS != nil (the connection terminated TLS here)
+	Route  int    `json:"route,omitempty"`  // see c40Routes
+	H2     bool   `json:"h2,omitempty"`     // HTTP/2
+	XFP    string `json:"xfp,omitempty"`    // X-Forwarded-Proto
+	Fwd    string `json:"fwd,omitempty"`    // Forwarded
+	Host   string `json:"host,omitempty"`
+	Remote string `json:"remote,omitempty"` // RemoteAddr
+	Enc    string `json:"enc,omitempty"`    // Accept-Encoding
+	Origin string `json:"origin,omitempty"`
+}
+
+var c40Routes = []struct{ method, path, rpc string }{
+	{"POST", "/c40_kind", "c40_kind"}, // the handler reports the binding it sees
+	{"POST", "/u_int", "u_int"},
+	{"GET", "/health", ""},
+	{"GET", "/", ""},
+	{"OPTIONS", "/health", ""},
+	{"POST", "/__describe__", "__describe__"},
+	{"GET", "/no-such-page", ""},
+	{"GET", "/describe", ""},
+	{"POST", "/prod/init", "prod"},
+}
+
+func c40BuildReq(q *c40Req, prefix string) *http.Request {
+	rt := c40Routes[((q.Route%len(c40Routes))+len(c40Routes))%len(c40Routes)]
+	var body io.Reader
+	if rt.rpc != "" {
+		body = bytes.NewReader(ReqBytes(PIntBatch(3), StdMeta(rt.rpc, "r", "")))
+	}
+	scheme := "http"
+	if q.TLS {
+		scheme = "https"
+	}
+	host := q.Host
+	if host == "" {
+		host = "example.com"
+	}
+	path := prefix + rt.path
+	if rt.path == "/" && prefix != "" {
+		path = prefix
+	}
+	req := httptest.NewRequest(rt.method, scheme+"://"+host+path, body) // https target sets r.TLS
+	if q.TLS && req.TLS == nil {
+		req.TLS = &tls.ConnectionState{Version: tls.VersionTLS13, HandshakeComplete: true}
+	}
+	if !q.TLS {
+		req.TLS = nil
+	}
+	if rt.rpc != "" {
+		req.Header.Set("Content-Type", "application/vnd.apache.arrow.stream")
+	}
+	if q.H2 {
+		req.Proto, req.ProtoMajor, req.ProtoMinor = "HTTP/2.0", 2, 0
+	}
+	for k, v := range map[string]string{"X-Forwarded-Proto": q.XFP, "Forwarded": q.Fwd, "Accept-Encoding": q.Enc, "Origin": q.Origin} {
+		if v != "" {
+			req.Header.Set(k, v)
+		}
+	}
+	if q.Remote != "" {
+		req.RemoteAddr = q.Remote
+	}
+	return req
+}
+
 func c40RunNotify(in c40In) CaseOut {
 	srv := vgirpc.NewServer()
+	var hsrv *vgirpc.HttpServer
+	hasReq := false
+	for _, q := range in.Reqs {
+		if q != nil {
+			hasReq = true
+		}
+	}
+	if hasReq {
+		var sf *Surface
+		hsrv, srv, sf = c40NewHTTP(in.Prefix, nil)
+		defer sf.Close()
+		if in.Prefix != "" || in.N%2 == 1 {
+			hsrv.SetCorsOrigins("*")
+		}
+	}
 	nth := len(in.Binds)
 	type rd struct {
 		err  error
@@ -570,6 +624,35 @@ func c40RunNotify(in c40In) CaseOut {
 	}
 	ctl = newC40Ctl(nth, func(t int) {
 		b := in.Binds[t]
+		if t < len(in.Reqs) && in.Reqs[t] != nil {
+			// a real request: 500 = the hook refused; otherwise it was dispatched
+			q := in.Reqs[t]
+			rec := httptest.NewRecorder()
+			var esc any
+			func() {
+				defer func() { esc = recover() }()
+				hsrv.ServeHTTP(rec, c40BuildReq(q, in.Prefix))
+			}()
+			r := rd{}
+			switch {
+			case esc != nil:
+				r.read = [2]int{9996, 9996}
+			case rec.Code == 500:
+				r.err = errors.New("500")
+			default:
+				r.read = bound()
+				if c40Routes[((q.Route%len(c40Routes))+len(c40Routes))%len(c40Routes)].rpc == "c40_kind" {
+					// what the handler itself saw while it ran
+					if v, _ := c40DecodeUnary(rec, nil); v >= 0 {
+						r.read = [2]int{int(v / 100000), int(v % 100000)}
+					} else {
+						r.read = [2]int{9997, 9997}
+					}
+				}
+			}
+			res[t] = r
+			return
+		}
 		err := vgirpc.VerifC40Notify(srv, c40KindStr(b[0]), c40CapsMap(b[1]))
 		r := rd{err: err}
 		if err == nil {
@@ -621,6 +704,20 @@ func c40RunNotify(in c40In) CaseOut {
 	tags := []string{"notify", fmt.Sprintf("threads:%d", nth)}
 	if !in.Hook {
 		tags = append(tags, "no-hook")
+	}
+	if hasReq {
+		tags = append(tags, "http-requests")
+		ntls, nplain := 0, 0
+		for _, q := range in.Reqs {
+			if q != nil && q.TLS {
+				ntls++
+			} else if q != nil {
+				nplain++
+			}
+		}
+		if ntls > 0 && nplain > 0 {
+			tags = append(tags, "tls-and-plaintext")
+		}
 	}
 	if stuck {
 		tags = append(tags, "stuck")
@@ -1202,6 +1299,78 @@ func c40Same(n int, b [2]int) [][2]int {
 	return out
 }
 
+// c40HTTPBoundary: one HttpServer reached by requests whose transport-level
+// attributes differ (TLS / plaintext first of all).  The binding is (http, nil)
+// for all of them: one hook run, one commit, one binding for every observer.
+func c40HTTPBoundary() []c40In {
+	http := [2]int{2, 0}
+	seq := func(n int, peekEvery bool) []c40Ev {
+		var evs []c40Ev
+		for i := 0; i < n; i++ {
+			evs = append(evs, c40Go(i), c40Rel)
+			if peekEvery {
+				evs = append(evs, c40Peek)
+			}
+		}
+		return evs
+	}
+	alt := func(n, route int) []*c40Req {
+		var qs []*c40Req
+		for i := 0; i < n; i++ {
+			qs = append(qs, &c40Req{TLS: i%2 == 0, Route: route})
+		}
+		return qs
+	}
+	var out []c40In
+	// sequential alternation TLS / plaintext, the handler reporting what it sees
+	out = append(out, c40In{Kind: "notify", Hook: true, Binds: c40Same(11, http), Reqs: alt(11, 0), Evs: seq(11, true)})
+	// plaintext first, health probes (an internal LB port) against TLS traffic
+	out = append(out, c40In{Kind: "notify", Hook: true, Binds: c40Same(6, http), Evs: seq(6, true),
+		Reqs: []*c40Req{{Route: 2}, {TLS: true, Route: 1}, {Route: 2}, {TLS: true, Route: 0}, {Route: 4}, {TLS: true, Route: 3}}})
+	// concurrent: a TLS first request inside the hook, plaintext and TLS requests waiting
+	out = append(out, c40In{Kind: "notify", Hook: true, Binds: c40Same(6, http), Reqs: alt(6, 0),
+		Evs: []c40Ev{c40Go(0), c40Go(1), c40Go(2), c40Go(3), c40Peek, c40Rel, c40Peek, c40Go(4), c40Rel, c40Go(5), c40Rel, c40Peek}})
+	// the first (TLS) request's hook run fails, a plaintext request waiting retries it
+	out = append(out, c40In{Kind: "notify", Hook: true, Binds: c40Same(4, http), Outcomes: []bool{false, true, false, false},
+		Reqs: []*c40Req{{TLS: true, Route: 1}, {Route: 1}, {TLS: true, Route: 0}, {Route: 0}},
+		Evs:  []c40Ev{c40Go(0), c40Go(1), c40Rel, c40Peek, c40Rel, c40Peek, c40Go(2), c40Rel, c40Go(3), c40Rel, c40Peek}})
+	// without a hook the binding must be just as stable
+	out = append(out, c40In{Kind: "notify", Hook: false, Binds: c40Same(4, http), Reqs: alt(4, 0), Evs: seq(4, true)})
+	// every route, TLS and plaintext alternating; with a prefix and CORS
+	for _, prefix := range []string{"", "/api"} {
+		var qs []*c40Req
+		for r := range c40Routes {
+			qs = append(qs, &c40Req{TLS: r%2 == 1, Route: r, Origin: "https://app.example"})
+		}
+		qs = append(qs, &c40Req{Route: 0}, &c40Req{TLS: true, Route: 0})
+		out = append(out, c40In{Kind: "notify", Hook: true, Prefix: prefix, Binds: c40Same(len(qs), http), Reqs: qs, Evs: seq(len(qs), false)})
+	}
+	// the other request-level attributes a binding could wrongly be derived from
+	out = append(out, c40In{Kind: "notify", Hook: true, Binds: c40Same(9, http), Evs: seq(9, true), Reqs: []*c40Req{
+		{Route: 0}, {Route: 0, XFP: "https"}, {Route: 0, H2: true}, {Route: 0, Fwd: "proto=https;host=x"},
+		{Route: 0, Host: "internal.local:8080"}, {Route: 0, Remote: "[::1]:4711"}, {Route: 0, Enc: "zstd"},
+		{Route: 0, TLS: true, H2: true, XFP: "http"}, {Route: 0}}})
+	// requests mixed with a direct pipe binding on the same server (two bindings)
+	out = append(out, c40In{Kind: "notify", Hook: true, Binds: [][2]int{http, {1, 0}, http, http},
+		Reqs: []*c40Req{{TLS: true}, nil, {}, {TLS: true}}, Evs: seq(4, true)})
+	return out
+}
+
+var c40ReqPool = struct{ xfp, fwd, host, remote, enc []string }{
+	[]string{"", "", "", "https", "http"}, []string{"", "", "proto=https"}, []string{"", "", "a.example", "10.0.0.7:8443"},
+	[]string{"", "", "[::1]:4711", "192.0.2.9:55000"}, []string{"", "", "zstd", "gzip"},
+}
+
+func c40GenReq(r *rand.Rand, ptls int) *c40Req {
+	pick := func(xs []string) string { return xs[r.Intn(len(xs))] }
+	q := &c40Req{TLS: r.Intn(100) < ptls, H2: r.Intn(5) == 0, XFP: pick(c40ReqPool.xfp), Fwd: pick(c40ReqPool.fwd),
+		Host: pick(c40ReqPool.host), Remote: pick(c40ReqPool.remote), Enc: pick(c40ReqPool.enc)}
+	if r.Intn(2) == 0 {
+		q.Route = r.Intn(len(c40Routes))
+	}
+	return q
+}
+
 func c40Boundary() []c40In {
 	http := [2]int{2, 0}
 	pipe := [2]int{1, 0}
@@ -1274,6 +1443,20 @@ func c40GenNotify(r *rand.Rand) c40In {
 			in.Binds[r.Intn(n)] = [2]int{0, 0}
 		}
 	}
+	if r.Intn(100) < 30 {
+		// real HTTP requests instead of direct calls: mostly all of them, TLS-ness mixed
+		ptls := []int{50, 50, 20, 80, 0, 100}[r.Intn(6)]
+		all := r.Intn(3) > 0
+		in.Reqs = make([]*c40Req, n)
+		for i := 0; i < n; i++ {
+			if all || r.Intn(2) == 0 {
+				in.Reqs[i] = c40GenReq(r, ptls)
+				in.Binds[i] = [2]int{2, 0}
+			}
+		}
+		in.Prefix = []string{"", "", "/v1"}[r.Intn(3)]
+		in.N = r.Intn(2)
+	}
 	pfail := []int{0, 20, 50, 80}[r.Intn(4)]
 	for i := 0; i < 2*n; i++ {
 		in.Outcomes = append(in.Outcomes, r.Intn(100) >= pfail)
@@ -1315,7 +1498,8 @@ func c40GenOnce(r *rand.Rand) c40In {
 }
 
 func c40Gen(r *rand.Rand, n int, tier string) []c40In {
-	out := c40Boundary()
+	out := c40HTTPBoundary()
+	out = append(out, c40Boundary()...)
 	out = append(out, c40CodecBoundary()...)
 	if tier == "thorough" {
 		out = append(out, c40In{Kind: "race", N: 16, Rounds: 48, Hist: c40RaceHistory()})
@@ -1339,6 +1523,6 @@ func c40Gen(r *rand.Rand, n int, tier string) []c40In {
 
 func init() {
 	_ = sort.Ints
-	Register("C40", "boundary first (the two server_transport_test.go scenarios, second caller during a failing hook, two kinds, same kind with different capabilities, no hook, the zero binding, no threads; three Once scripts; three free-running page/hash reader groups; one -race run of 16 goroutines of mixed traffic wrapped in a history of aborted responses before and slow-reader overlaps after; 17 compressed-response histories: the hang-up-after-10-bytes x3 then overlap history for gzip and zstd, hang-up point swept over 0/5/10/11/40/100/never for both codecs, no abort at all), then random: 70% notifyTransport scripts (1-6 threads, 50% one binding / 30% two / 20% mixed incl. the zero binding, hook failure rate 0/20/50/80%, 12% without a hook, go/release/peek events incl. events naming no thread), 12% compressed-response histories (aborts at 9 cut points, single and 2-3 overlapping responses, levels 1-4, both codecs), 15% sync.Once scripts, 3% free-running readers. Non-trivial: a hook ran or two bindings were announced / f was entered / more than one reader / the race run / a history with overlapping responses. distinct = distinct input JSON",
+	Register("C40", "boundary first (9 histories of one HttpServer reached by requests with differing transport-level attributes: TLS/plaintext alternating 11 times with the handler reporting the binding it sees, LB health probes against TLS traffic, a TLS request inside the hook with plaintext and TLS requests waiting, a failing first run retried by a plaintext waiter, no hook, every route with and without prefix+CORS, the other attributes (X-Forwarded-Proto, HTTP/2, Forwarded, Host, RemoteAddr, Accept-Encoding), requests mixed with a direct pipe binding; then the two server_transport_test.go scenarios, second caller during a failing hook, two kinds, same kind with different capabilities, no hook, the zero binding, no threads; three Once scripts; three free-running page/hash reader groups; one -race run of 16 goroutines of mixed traffic wrapped in a history of aborted responses before and slow-reader overlaps after; 17 compressed-response histories: the hang-up-after-10-bytes x3 then overlap history for gzip and zstd, hang-up point swept over 0/5/10/11/40/100/never for both codecs, no abort at all), then random: 70% notifyTransport scripts (30% of them with real HTTP requests through ServeHTTP as callers: TLS / plaintext mixed 50-50, 20-80, 80-20 or pure, HTTP/2, X-Forwarded-Proto, Forwarded, Host, RemoteAddr, Accept-Encoding varied, 9 routes, prefix and CORS on/off; 1-6 threads, 50% one binding / 30% two / 20% mixed incl. the zero binding, hook failure rate 0/20/50/80%, 12% without a hook, go/release/peek events incl. events naming no thread), 12% compressed-response histories (aborts at 9 cut points, single and 2-3 overlapping responses, levels 1-4, both codecs), 15% sync.Once scripts, 3% free-running readers. Non-trivial: a hook ran or two bindings were announced / f was entered / more than one reader / the race run / a history with overlapping responses. distinct = distinct input JSON",
 		c40Gen, c40Run1)
 }
